@@ -161,7 +161,7 @@ def main():
                 injected.clear()
                 if unit['engine'] == 'kani':
                     hs = {h: hc for h, hc in unit['harnesses'].items()
-                          if pid in hc['props'] and (a.tier == 'thorough' or hc.get('tier', 'quick') == 'quick')}
+                          if pid in hc['props'] and (a.tier == 'thorough' or (hc.get('tier', 'quick') == 'quick' and h not in cfg.get('quick_drop', ())))}
                     if a.only:
                         hs = {h: hc for h, hc in hs.items() if re.search(a.only, h)}
                     if not hs:
